@@ -11,7 +11,7 @@ CLAIM = dict(
     text='Bounded symbolic checking: every integer sequence of length <= 5 over -3..3 (repeats, negative strides, irregular steps) is '
          'round-tripped through the real RLE classes under CrossHair; largest_le on every ascending sequence of length <= 4 and every query; '
          'the LIS frame index on every (position, frames) pattern of <= 4 records. One inductive SMT step (arbitrary run + add(v)) removes the '
-         'length bound for RLEItem.add.',
+         'length bound for RLEItem.add. Float sequences (regular, and off the run by a last bit up to one and a half strides) come back to within two units in the last place.',
     note='Trusted: CrossHair, z3, py2smt. Floats ("within rounding of one stride") are outside: integers only.',
 )
 META = dict(
@@ -64,6 +64,10 @@ def obligations(tier):
         Ob('rle_roundtrip_large_integers', 'ch', 'integer sequences of length 1..4: base 2**60 / -2**62 / 1.7e18 + i * step (1000 / 0 / 10**6) + offsets -3..3',
            ['common.Rle.create_rle', 'RLE.add/value/values/num_values/first/last', 'RLEItem.add/value/values/last'],
            harness='C16_rle', func='rle_roundtrip_large', timeout=150 if q else 900, parts=7),
+        Ob('rle_float_sequences', 'ch', 'float sequences of length 2..5: 4 start values (0.1, 1000, 1.7e12, negative) x 4 strides x per-value deviation from the extrapolated value '
+           '(none, one unit in the last place, 1e-10 and 1e-7 relative, a quarter stride, one and a half strides): count, first, last, value(i) for positive and negative i and iteration '
+           'give each value back to within two units in the last place',
+           ['common.Rle.create_rle', 'RLE.add/value/values/num_values/first/last', 'RLEItem.add (float branch)'], harness='C16_rle', func='rle_floats', timeout=170 if q else 600, parts=16),
         Ob('rle_largest_le', 'ch', 'ascending sequences of length 1..4 (first 0..2, gaps 1..3), query first..12', ['common.Rle.RLE.largest_le', 'RLEItem.largest_le'],
            harness='C16_rle', func='rle_largest_le', timeout=150 if q else 900),
         Ob('rle_largest_le_large_integers', 'ch', 'ascending sequences of length 1..4, first 10**15 / 2**60, gaps 1..3 x (3*10**15+7) / (2**55+1); query = each stored value and its two neighbours',
